@@ -199,6 +199,8 @@ def run(rep, tier):
     exclude_border_probe(rep, r, 8 * scale)
     separation_symmetry_probe(rep, r, 12 * scale)
     separation_footprint_correspondence(rep, drv, r)
+    kernel_orientation_probe(rep, r, 12 * scale)
+    xycoords_jitter_probe(rep, r, 4 * scale)
 
 
 def star_scene(r):
@@ -405,6 +407,59 @@ def separation_symmetry_probe(rep, r, n):
                     rep.violation(f'separation-not-symmetric:{name}:{vn}', f'{name}(min_separation={msep}): {len(base)} sources on the image, {len(got)} on its '
                                   f'{vn} image (mapped back): {base} vs {got}', {'finder': name, 'min_separation': msep, 'pairs': pairs, 'variant': vn})
                     break
+
+
+def xycoords_jitter_probe(rep, r, n):
+    """(S) supplying xycoords replaces peak finding by those positions: giving each detected peak's position displaced by a fraction
+    of a pixel (same pixel) must return the same measured centroids and fluxes as peak finding does"""
+    from photutils.detection import DAOStarFinder, IRAFStarFinder
+    for _ in range(n):
+        yy, xx = np.mgrid[0:41, 0:45]
+        img = np.zeros((41, 45))
+        for (cx, cy) in [(11, 10), (31, 12), (13, 29), (33, 30)]:
+            img += r.uniform(60, 150) * np.exp(-((xx - cx - r.uniform(-0.4, 0.4)) ** 2 + (yy - cy - r.uniform(-0.4, 0.4)) ** 2) / (2 * 1.3 ** 2))
+        for name, cls in (('DAOStarFinder', DAOStarFinder), ('IRAFStarFinder', IRAFStarFinder)):
+            with warnings.catch_warnings():
+                warnings.simplefilter('ignore')
+                ref = cls(threshold=5.0, fwhm=3.0)(img)
+                if ref is None or len(ref) != 4:
+                    continue
+                # the pixel of each detected peak, displaced inside that pixel
+                pix = np.array([[round(float(x_)), round(float(y_))] for x_, y_ in zip(ref['xcentroid'], ref['ycentroid'])], float)
+                jit = pix + np.array([[r.uniform(-0.45, 0.45), r.uniform(-0.45, 0.45)] for _ in range(len(pix))])
+                got = cls(threshold=5.0, fwhm=3.0, xycoords=jit)(img)
+            rep.case(('xyjit', name, img.tobytes()), True, kind=f'xycoords-jitter:{name}')
+            rep.probe_only += 1
+            if got is None or len(got) != len(ref) or not np.allclose(got['xcentroid'], ref['xcentroid'], atol=1e-9) \
+                    or not np.allclose(got['ycentroid'], ref['ycentroid'], atol=1e-9) or not np.allclose(got['flux'], ref['flux'], rtol=1e-9):
+                rep.violation(f'xycoords-ne-peak-finding:{name}', f'{name}: with xycoords inside the pixels of the detected peaks the centroids are '
+                              f'{None if got is None else [(round(float(a), 4), round(float(b), 4)) for a, b in zip(got["xcentroid"], got["ycentroid"])]}, '
+                              f'peak finding gives {[(round(float(a), 4), round(float(b), 4)) for a, b in zip(ref["xcentroid"], ref["ycentroid"])]}',
+                              {'finder': name, 'xycoords': jit.tolist(), 'data': img.tolist()})
+
+
+def kernel_orientation_probe(rep, r, n):
+    """(S) the DAOStarFinder kernel is the documented elliptical Gaussian: major axis `theta` degrees counter-clockwise from +x,
+    minor-axis width ratio * fwhm - compared with an independently rotated Gaussian on the kernel's own grid"""
+    from astropy.stats import gaussian_fwhm_to_sigma
+    from photutils.detection import DAOStarFinder
+    for _ in range(n):
+        fw, ratio, th = r.uniform(2.5, 7.0), r.choice([1.0, 0.8, 0.5, 0.35]), r.choice([0.0, 90.0, 40.0, 120.0, r.uniform(0, 180)])
+        k = DAOStarFinder(threshold=1.0, fwhm=fw, ratio=ratio, theta=th).kernel
+        g = np.array(k.gaussian_kernel_unmasked, float)
+        yy, xx = np.mgrid[0:k.ny, 0:k.nx]
+        t = math.radians(th)
+        sx = fw * gaussian_fwhm_to_sigma
+        sy = sx * ratio
+        xp = (xx - k.xc) * math.cos(t) + (yy - k.yc) * math.sin(t)
+        yp = -(xx - k.xc) * math.sin(t) + (yy - k.yc) * math.cos(t)
+        ref = np.exp(-(xp ** 2 / (2 * sx ** 2) + yp ** 2 / (2 * sy ** 2)))
+        rep.case(('kernel', fw, ratio, th), ratio < 1 and th % 90 != 0, kind='starfinder-kernel')
+        rep.probe_only += 1
+        if g.shape != ref.shape or not np.allclose(g, ref, rtol=0, atol=1e-12):
+            rep.violation('starfinder-kernel-ne-documented', f'DAOStarFinder(fwhm={fw:.3f}, ratio={ratio}, theta={th:.2f}): the kernel differs from the documented '
+                          f'elliptical Gaussian by {float(np.abs(g - ref).max()) if g.shape == ref.shape else "shape"}',
+                          {'fwhm': fw, 'ratio': ratio, 'theta': th})
 
 
 def separation_footprint_correspondence(rep, drv, r):
